@@ -108,14 +108,57 @@ def run(ids, tier="quick"):
                                                                "first": detail[0][:300] if detail else ""}
         finally:
             sh(["git", "-C", "/repo", "checkout", "--", "."])
+    allp = os.path.join(SEEDED, "results.json")
+    try:
+        cumulative = json.load(open(allp))
+    except FileNotFoundError:
+        cumulative = {}
+    cumulative.update(results)
+    with open(allp, "w") as f:
+        json.dump(cumulative, f, indent=1, sort_keys=True)
     with open(os.path.join(SEEDED, "last_run.json"), "w") as f:
         json.dump(results, f, indent=1)
     sh(["git", "-C", "/repo", "status", "--porcelain"])
     return 0
 
 
+def table():
+    """markdown table of the kept seeded changes and the verdict of the last run against each"""
+    last = {}
+    for name in ("last_run.json", "results.json"):
+        try:
+            last.update(json.load(open(os.path.join(SEEDED, name))))
+        except FileNotFoundError:
+            pass
+    rows = ["| seed | breaks | what it needs to manifest | caught by (quick tier) |", "|------|--------|---------------------------|------------------------|"]
+    for sid in sorted(os.listdir(SEEDED)):
+        mp = os.path.join(SEEDED, sid, "meta.json")
+        if not os.path.exists(mp):
+            continue
+        m = json.load(open(mp))
+        needs = " ".join(m.get("needs", "").split())
+        needs = needs[:260] + ("…" if len(needs) > 260 else "")
+        res = last.get(sid, {})
+        verdicts = []
+        for k, v in res.items():
+            first = v.get("first", "")
+            ob = ""
+            if "obligation=" in first:
+                ob = first.split("obligation=")[1].split(" inputs=")[0].strip("'\"")[:90]
+                h = first.split("harness=")[1].split(" ")[0]
+                ob = " `%s`: %s" % (h, ob)
+            verdicts.append("%s %s%s" % (v["verdict"], k.split(":")[0], ob))
+        note = m.get("strengthened", "")
+        rows.append("| %s | %s | %s | %s%s |" % (sid, m["breaks"], needs.replace("|", "/"), "; ".join(verdicts) or "not run",
+                                               (" — " + note) if note else ""))
+    print("\n".join(rows))
+
+
 if __name__ == "__main__":
     a = sys.argv[1:]
+    if a and a[0] == "table":
+        table()
+        sys.exit(0)
     if a and a[0] == "ingest":
         ingest(*a[1:])
     elif a and a[0] == "run":
